@@ -89,6 +89,35 @@ def planted_variants(w, pr, r):
     return out
 
 
+def grafted_variants(w, pr, r):
+    """a section of ANOTHER proof grafted onto an honest one (the verifier authenticates ONE of the block / hash sections of a proof;
+    the core stores the block section's value): (a) a block section whose value is forged next to the honest hash section of a
+    node the replica can verify; (b) an honest hash-section proof with a forged block section for a block the replica does not hold.
+    Both carry block bytes that differ from the writer's and must be refused."""
+    out = []
+    if pr["block"] is not None and pr["hash"] is None:
+        req = w.honest_request(r, kinds=["hash"])
+        if req and req[0].startswith("hash"):
+            ia, _ = w.prove(**req[1])
+            if ia.startswith("ok ") and ia != "ok none":
+                hp = parse_proof(ia[3:])
+                if hp["hash"] is not None:
+                    q = substituted_block(pr, r)
+                    q["hash"] = copy.deepcopy(hp["hash"])
+                    if q["upgrade"] is None and hp["upgrade"] is not None:
+                        q["upgrade"] = copy.deepcopy(hp["upgrade"])
+                    out.append(("graft:hash-section+substituted-block", q, False))
+    if pr["hash"] is not None and pr["block"] is None:
+        top = w.wspec.length if pr["upgrade"] is not None else w.rlen
+        cand = [j for j in range(top) if j not in w.rheld]
+        if cand:
+            j = r.choice(cand)
+            q = copy.deepcopy(pr)
+            q["block"] = dict(index=j, value=hexb(b"FORGED" + bytes([65 + j % 26])), nodes=[])
+            out.append(("graft:forged-block-section+hash", q, False))
+    return out
+
+
 def run_world(pair, r, res, tier, crash_only=False, kinds=None):
     """returns list of violation dicts"""
     w = build_world(pair, r)
@@ -125,6 +154,7 @@ def run_world(pair, r, res, tier, crash_only=False, kinds=None):
             alts = alterations(pr, r, limit=28 if tier == "quick" else None) + forged_variants(w, pr, r, signed)
             plants = dict((lb, (q, info)) for lb, q, info in planted_variants(w, pr, r))
             alts += [(lb, q, False) for lb, (q, info) in plants.items()]
+            alts += grafted_variants(w, pr, r)
             for label, q, size_only in alts:
                 res.count("alt:" + label.split("[")[0].split(".")[-1])
                 if clone_replica(w) != "ok":
@@ -184,7 +214,8 @@ def run_world(pair, r, res, tier, crash_only=False, kinds=None):
                     # signature (altered, by another key, or a genuine one for another length), fork (a hash flip in a node
                     # the verifier never reads — a surplus node — is not authenticated and is left to the state oracle below)
                     must_refuse = (label in ("substituted-block", "signature-other-key", "signature-other-length", "fork+1")
-                                   or label.startswith("block.value") or label.startswith("upgrade.signature"))
+                                   or label.startswith("block.value") or label.startswith("upgrade.signature")
+                                   or label.startswith("graft:"))
                     if must_refuse:
                         found.append(dict(key="accepted:forged", what="altered proof (%s) was ACCEPTED (the property requires it to be refused); "
                                           "replica now reports %s" % (label, pair.impl.cmd("info X")), replay=rep))
